@@ -256,7 +256,7 @@ def column_contracts():
     return T
 
 
-def column_target(mod, res):
+def column_target(mod, res, prop='C19'):
     """one call of each appender from an arbitrary output state satisfying the invariant utf16_len == |text|_utf16"""
     idx = out_layout()
     obs_total = 0
@@ -310,6 +310,12 @@ def column_target(mod, res):
             obs.append(cc.Ob(['C19'], 'column-monotone', '%s: utf16_len decreases' % which, q, u16_end < U16, which))
             raws = [e for e in q.events if e[0] == 'add_raw']
             tocss = [e for e in q.events if e[0] == 'to_css']
+            if which != 'append_raw':
+                # conservation at the writer (C08): whatever the output state, the token handed to an appender is written, once
+                wrote = [e for e in q.events if e[0] in ('to_css', 'push_char', 'write_const', 'append_str')]
+                obs.append(cc.Ob(['C08'], 'token-written', '%s: nothing is written for the token on this path (the appender may not drop a token, whatever the text before it)' % which, q,
+                                 z3.BoolVal(not wrote), which))
+                obs.append(cc.Ob(['C08'], 'token-written', '%s: the token is serialised %d times' % (which, len(tocss)), q, z3.BoolVal(len(tocss) > 1), which))
             seps = [e for e in q.events if e[0] in ('write_const', 'push_char')]
             kind = tok.discr
             is_ws = kind == sc_env.TK['WhiteSpace']
@@ -346,7 +352,7 @@ def column_target(mod, res):
                 obs.append(cc.Ob(['C19'], 'name', 'unexpected name value', q, z3.BoolVal(True), which))
             obs.append(cc.Ob(['C19'], 'column-sum', 'utf16_len after the call is not start + separator + token length', q,
                              u16_end != U16 + sep + tocss[0][2], which))
-        bad, n = cc.decide(exe, obs, res, ['C19'])
+        bad, n = cc.decide(exe, obs, res, [prop])
         obs_total += n
         log('[C19] %s: paths=%d obligations=%d violated=%d (%.1fs)' % (which, len(done), n, len(bad), time.time() - t))
         res.functions.append({'routine': 'StyleSheetOutput::' + which, 'paths': len(done), 'obligations': n,
@@ -358,6 +364,11 @@ def column_target(mod, res):
             if ob.cls in seen:
                 continue
             seen.add(ob.cls)
+            if prop == 'C08':
+                from checks import css_entry
+                if not css_entry.probe_sheets(res, {'engine': 'M', 'harness': 'appender/' + which, 'class': ob.cls}, '%s: %s' % (which, ob.desc)):
+                    res.inconc('appender/%s: %s - not observable on the probe sheets' % (which, ob.desc))
+                continue
             confirm_columns(res, ob, which)
     return obs_total
 
